@@ -84,7 +84,7 @@ func raceProbe(c *vh.Ctx) {
 		go func() {
 			sctx, scancel := context.WithTimeout(context.Background(), 3*time.Second)
 			defer scancel()
-			item, _ := tokenItem(c.Rng, 1, 1)
+			item, _ := tokenItem(c.Rng, 1, 1, true)
 			_, _ = conn.SendDataMessage(sctx, 1, 1, false, item)
 		}()
 		gotAck := false
